@@ -4,6 +4,7 @@
 import ErgoProofs.Lemmas.ReachInv
 import ErgoProofs.Lemmas.PropsAux
 import ErgoProofs.Lemmas.DiskInv
+import ErgoProofs.Lemmas.DiskConc
 namespace Ergo
 
 /-- at all times each task's epic is empty or the id of an existing, unpruned epic; epics belong to nothing -/
@@ -37,5 +38,17 @@ theorem C14_inv_holds_of_the_bytes_on_disk {limit : Nat} {log : List Event} {f :
     ∃ g, Storage.readEvents Codec.classifyLine limit f = .ok log ∧ replay log = .ok g ∧ Inv14 g := by
   obtain ⟨g, hf, hr, hinv⟩ := Codec.disk_allInv h
   exact ⟨g, hf, hr, hinv.i14⟩
+
+/-- "at all times" includes concurrent runs, on the bytes (e.g. `prune` racing `new task --epic`): any schedule of ergo's own lock sections in
+    the byte-level process system, deaths between system calls — the file reads back to a log in whose graph every epic reference is live -/
+theorem C14_inv_concurrent_on_disk (f : Storage.Bytes) (log0 : List Event) (envs : List (Env × Sec)) (nr limit : Nat)
+    (ets : Event → String) (hf : Storage.readEvents Codec.classifyLine limit f = .ok log0) (hfw : Codec.AllWf log0) (h0 : SecReach log0)
+    (hok : ∀ es ∈ envs, SecOK es.1 es.2) (hT : ∀ es ∈ envs, Codec.EnvT es.1)
+    (s : ProcB.BSys) (h : ProcB.BReachableNT (ProcB.BSys.init f (envs.map fun (es : Env × Sec) => secDecide es.1 es.2) nr limit ets) s)
+    (hclock : ∀ (i p : Nat) (snap : List Event) (w : Write) (g : Graph), s.commits[i]? = some (p, snap, w) → replayRaw snap = .ok g →
+               ∀ es : Env × Sec, envs[p]? = some es → EnvOK g es.1) :
+    ∃ L g, Storage.readEvents Codec.classifyLine limit s.file = .ok L ∧ replayRaw L = .ok g ∧ Inv14 g := by
+  obtain ⟨L, g, hl, hg, hinv⟩ := ProcB.conc_disk_allInv f log0 envs nr limit ets hf hfw h0 hok hT s h hclock
+  exact ⟨L, g, hl, hg, hinv.i14⟩
 
 end Ergo
